@@ -273,6 +273,93 @@ def run_path(case):
             'tags': {'path-sets': 1, 'orders': n_perm}, 'sample': case}
 
 
+# ---- (b2) multi-band paths: per-band amplifier PMD/PDL stay attached to the channels of their band ------------------------
+MB_PMDPDL = {'std_low_gain': (1e-12, 0.3), 'std_low_gain_L': (2e-12, 0.9), 'std_low_gain_S': (1.5e-12, 0.6),
+             'wide_LC': (0.5e-12, 0.2), 'wide_LCS': (0.5e-12, 0.2), 'std_low_gain_reduced_band': (1e-12, 0.4)}
+
+
+def run_mbpath(case):
+    """multi-band line systems whose band amplifiers have different PMD/PDL, declared in both frequency orders: every element
+    adds its own contribution in quadrature to the channels it carries; CD and latency only change in fibres"""
+    import numpy as np
+    from checks import c07
+    c.set_sim_params({'raman_params': {'flag': False}})
+    viol = []
+    eq = c07.library()
+    for e in eq['Edfa']:
+        if e['type_variety'] in MB_PMDPDL:
+            e['pmd'], e['pdl'] = MB_PMDPDL[e['type_variety']]
+    topo = c07.network(case['net'])
+    if case['declared'] == 'ascending':
+        for el in topo['elements']:
+            if el.get('type') == 'Multiband_amplifier' and 'amplifiers' in el:
+                el['amplifiers'] = el['amplifiers'][::-1]
+        for e in eq['Edfa']:
+            if e.get('type_def') == 'multi_band':
+                e['amplifiers'] = e['amplifiers'][::-1]
+    net, equipment, _, _ = c.design(topo, eq)
+    transitions = 0
+    traces = 0
+    for path in c.all_simple_trx_paths(net):
+        common, _ = c07.path_common_bands(path)
+        spec = []
+        for k, (lo, hi) in enumerate(common):
+            for i in range(2 + k):
+                spec.append(dict(f=lo + 100e9 + i * 150e9, baud=32e9, slot=50e9, power_dbm=-1.0 * i, label=f'b{k}'))
+        spec.sort(key=lambda x: x['f'])
+        req = c.make_request(equipment, path[0].uid, path[-1].uid, spectrum=spec)
+        where0 = f'net {case["net"]} (band amplifiers declared in {case["declared"]} frequency order) {path[0].uid}->{path[-1].uid}'
+        try:
+            pth, si, rec = c.propagate_recorded(path, req, equipment)
+        except Exception as exc:  # noqa
+            viol.append(dict(fingerprint=f'mbpath-raised:{type(exc).__name__}', what=f'{where0}: {str(exc)[:200]}'))
+            continue
+        ok = True
+        for st in rec.steps:
+            transitions += 1
+            pre, post = st['pre'], st['post']
+            where = f'{where0}: {st["cls"]} {st["uid"]}'
+            if len(pre['f']) != len(post['f']) or not np.array_equal(pre['f'], post['f']):
+                viol.append(dict(fingerprint='mbpath-channel-set', what=f'{where}: channel set / order changed'))
+                ok = False
+                break
+            d_pmd = post['pmd'] ** 2 - pre['pmd'] ** 2
+            d_pdl = post['pdl'] ** 2 - pre['pdl'] ** 2
+            if st['cls'] in ('Edfa', 'Multiband_amplifier'):
+                el = st['el']
+                amps = list(el.amplifiers.values()) if st['cls'] == 'Multiband_amplifier' else [el]
+                exp_pmd, exp_pdl = [], []
+                for f in pre['f']:
+                    a = next((x for x in amps if x.params.f_min <= f <= x.params.f_max), None)
+                    x = MB_PMDPDL.get(a.params.type_variety, (0.0, 0.0)) if a is not None else (0.0, 0.0)
+                    exp_pmd.append(x[0] ** 2)
+                    exp_pdl.append(x[1] ** 2)
+                if not np.allclose(d_pmd, exp_pmd, rtol=1e-6, atol=1e-30) or not np.allclose(d_pdl, exp_pdl, rtol=1e-6, atol=1e-12):
+                    viol.append(dict(fingerprint='band-amplifier-pmd-pdl-on-wrong-channels',
+                                     what=f'{where}: per-channel PDL^2 increase {d_pdl.tolist()} expected {exp_pdl}; PMD^2 increase '
+                                          f'{d_pmd.tolist()} expected {exp_pmd} (channels {[round(x / 1e12, 3) for x in pre["f"]]} THz)'))
+                    ok = False
+                if not np.array_equal(pre['cd'], post['cd']) or not np.array_equal(pre['lat'], post['lat']):
+                    viol.append(dict(fingerprint='amplifier-changed-cd-or-latency', what=where))
+                    ok = False
+            else:
+                # fibres, fused, ROADMs (no per-band profile here), transceivers: the same contribution on every channel
+                if not np.allclose(d_pdl, d_pdl[0], rtol=1e-6, atol=1e-12) or not np.allclose(d_pmd, d_pmd[0], rtol=1e-6, atol=1e-30):
+                    viol.append(dict(fingerprint='uniform-element-pmd-pdl-differs-per-channel',
+                                     what=f'{where}: PDL^2 increase {d_pdl.tolist()}, PMD^2 increase {d_pmd.tolist()}'))
+                    ok = False
+                if (d_pdl < -1e-12).any() or (d_pmd < -1e-30).any():
+                    viol.append(dict(fingerprint='pmd-pdl-decreased', what=where))
+                    ok = False
+            if not ok:
+                break
+        traces += ok
+    for x in viol:
+        x['case'] = case
+    return {'violations': viol[:6], 'transitions': transitions, 'traces': traces, 'nontrivial': True,
+            'tags': {'mbpath': 1}, 'sample': case}
+
+
 # ---- (c) ------------------------------------------------------------------------------------------------------------
 C_SPACE = {
     'method': ['perturbative2', 'perturbative1', 'perturbative4', 'numerical'],
@@ -282,6 +369,8 @@ C_SPACE = {
     'pumps': ['none', 'cnt1', 'cnt2', 'co_cnt'],
     'length': [80.0, 50.0],
     'loss': ['0.2', 'table_asc'],
+    'att_in': [0.0, 2.0],
+    'con': [(0.5, 0.5), (0.2, 0.9)],
 }
 PUMPS = {
     'none': [],
@@ -313,9 +402,10 @@ def sim_for(method, res, step):
 
 
 def raman_fibre(rc):
-    fc = dict(length=rc['length'], loss=rc['loss'], lumped='none', att_in=0.0, con_in=0.5, con_out=0.5)
+    fc = dict(length=rc['length'], loss=rc['loss'], lumped='none')
     lc, table = loss_param(fc['loss'])
-    p = {'length': fc['length'], 'length_units': 'km', 'att_in': 0.0, 'con_in': 0.5, 'con_out': 0.5,
+    con_in, con_out = rc.get('con', (0.5, 0.5))
+    p = {'length': fc['length'], 'length_units': 'km', 'att_in': rc.get('att_in', 0.0), 'con_in': con_in, 'con_out': con_out,
          'loss_coef': table if table is not None else lc}
     ll = lumped_c(rc['lumped'], rc['length'])
     if ll:
@@ -348,8 +438,9 @@ def run_raman(case):
     sim = sim_for(rc['method'], rc['res'], rc['step'])
     where = f'RamanFiber {rc}'
     ll = lumped_c(rc['lumped'], rc['length'])
-    budget = np.array([0.5 + rc['length'] * alpha_db_per_km(rc['loss'], f) + sum(x['loss'] for x in ll) + 0.5
-                       for f in COMBS['edges3']['f']])
+    con_in, con_out = rc.get('con', (0.5, 0.5))
+    budget = np.array([rc.get('att_in', 0.0) + con_in + rc['length'] * alpha_db_per_km(rc['loss'], f) + sum(x['loss'] for x in ll)
+                       + con_out for f in COMBS['edges3']['f']])
     alpha_lin = np.array([alpha_db_per_km(rc['loss'], f) for f in COMBS['edges3']['f']]) / 4.342944819 * 1e-3
     L = rc['length'] * 1e3
     # exact bias of an explicit Euler integration of dP/dz = -alpha P with step dz over L (per channel, dB): each step
@@ -408,7 +499,7 @@ def run_raman(case):
 
 
 def run_case(case):
-    return {'single': run_single, 'path': run_path, 'raman': run_raman}[case['kind']](case)
+    return {'single': run_single, 'path': run_path, 'raman': run_raman, 'mbpath': run_mbpath}[case['kind']](case)
 
 
 def main(rep, tier, seed):
@@ -421,16 +512,20 @@ def main(rep, tier, seed):
     for ss in SPAN_SETS:
         for am in amp_sets:
             cases.append({'kind': 'path', 'spans': ss, 'amps': am})
+    for net_ in ('CL', 'CLS', 'mixed_C_then_CL', 'CLS_then_CL', 'wide_then_CL', 'narrowC'):
+        for decl in ('descending', 'ascending'):
+            cases.append({'kind': 'mbpath', 'net': net_, 'declared': decl})
+    n_b2 = 12
     sp = engine.Space(C_SPACE, constraint=lambda x: not (x['step'] == 100.0 and x['length'] == 80.0 and x['method'] == 'numerical'
                                                         and x['pumps'] == 'co_cnt'))
     d = 2 if tier == 'quick' else 4
     for x in sp.enumerate(d):
         cases.append({'kind': 'raman', 'raman': {k: x[k] for k in C_SPACE}})
-    n_c = len(cases) - n_a - len(SPAN_SETS) * len(amp_sets)
+    n_c = len(cases) - n_a - len(SPAN_SETS) * len(amp_sets) - n_b2
     results, stats = engine.run_pool('checks.c05', cases, horizon=600)
     rep.absorb(results)
     rep.cov['bound'] = (f'(a) full product over {list(A_SPACE)} = {n_a} single fibres; (b) {len(SPAN_SETS)} span sets x 2 amplifier '
-                        f'sequences, every order of each span list; (c) Raman settings within {d} deviations over {list(C_SPACE)} '
+                        f'sequences, every order of each span list; (b2) 6 multi-band networks x 2 declaration orders of the band amplifiers x every path; (c) Raman settings within {d} deviations over {list(C_SPACE)} '
                         f'= {n_c} configurations')
     rep.cov['space_size'] = len(cases)
     rep.cov['exhaustive'] = not stats['budget_hit'] and len(results) == len(cases)
@@ -443,4 +538,5 @@ def main(rep, tier, seed):
                         'numerical-solver tolerance is the explicit-Euler bias -4.343 (L/dz) [ln(1 - alpha dz) + alpha dz] (x1.2) + 1e-3 dB']
     rep.require(rep.tags.get('single', 0) >= 100 and rep.tags.get('path-sets', 0) >= 4 and rep.tags.get('raman', 0) >= 20,
                 'one of the three parts did not run')
+    rep.require(rep.tags.get('mbpath', 0) >= 12, 'multi-band PMD/PDL paths did not run')
     rep.require(rep.tags.get('raman:numerical', 0) >= 1 and rep.tags.get('raman:perturbative2', 0) >= 1, 'Raman methods not both run')
